@@ -28,6 +28,15 @@ fn en(s: &str) -> String {
     format!(".{}", s.replace('-', "_").replace('.', "_"))
 }
 
+/// a wrapper parameter as a `Param`; anything that is not one of the four parameter names (`&a`, `a.as_slice()`, a local
+/// variable …) becomes `.other`, which no specification accepts — the table still elaborates and the row is reported
+fn param_en(s: &str) -> String {
+    match s.trim() {
+        "a" | "b" | "result" | "value" => format!(".{}", s.trim()),
+        _ => ".other".to_string(),
+    }
+}
+
 fn toks(name: &str) -> String {
     format!("[{}]", name.split('_').map(en).collect::<Vec<_>>().join(", "))
 }
@@ -733,9 +742,10 @@ pub fn gen_tables(root: &Path, out: &mut Output, harness_dir: &Path) {
                     if t == "DIMS" {
                         ".dims".to_string()
                     } else if let Some(x) = t.strip_prefix("len ") {
-                        format!("(.len {})", en(x))
+                        format!("(.len {})", param_en(x))
                     } else {
-                        format!("(.unsupported_term_{})", t.replace(|c: char| !c.is_ascii_alphanumeric(), "_"))
+                        // not `DIMS` and not `<param>.len()`: an assertion about something else
+                        "(.len .other)".to_string()
                     }
                 };
                 let slot_var = |v: &str| -> (String, String) {
@@ -752,7 +762,7 @@ pub fn gen_tables(root: &Path, out: &mut Output, harness_dir: &Path) {
                     en(&sm.name),
                     form,
                     f.const_dims,
-                    llist(&f.params.iter().map(|(n, t)| format!("({}, {})", en(n), lstr(t))).collect::<Vec<_>>()),
+                    llist(&f.params.iter().map(|(n, t)| format!("({}, {})", param_en(n), lstr(t))).collect::<Vec<_>>()),
                     f.returns,
                     llist(&f.asserts.iter().map(|(a, b)| format!("({}, {})", term(a), term(b))).collect::<Vec<_>>()),
                     llist(
@@ -766,7 +776,7 @@ pub fn gen_tables(root: &Path, out: &mut Output, harness_dir: &Path) {
                                     sv,
                                     sf,
                                     d,
-                                    llist(&a.iter().map(|x| en(x)).collect::<Vec<_>>())
+                                    llist(&a.iter().map(|x| param_en(x)).collect::<Vec<_>>())
                                 )
                             })
                             .collect::<Vec<_>>()
